@@ -2,11 +2,16 @@
 // shark::WeightedLabeledData<I, unsigned int> (include/shark/Data/WeightedDataset.h).  A weighted dataset is a
 // LabeledData plus a Data<double> of weights that must go through every structural operation in lock-step;
 // element id carries weight id + 0.25, so the oracle can tell when a weight is separated from its element.
-// Supported ops: new repart splitb splitat splice append subset shuffle copy (the generator restricts itself to these).
+// Supported ops: new repart splitb splitat splice append subset shuffle copy swap indep, the raw forms rrepart rsplitb
+// rsplitat rsplice (no makeIndependent() first) and the probe `boot a k seed` (bootstrap(data, k): oracle only, no
+// state change, answered `undefined` like the model does).  The generator restricts itself to these.
+// The independence flags (`ind=`) are those of the data part; the oracle demands that the weight container is shared
+// exactly when the label container is (all operations treat data and weights in lock-step).
 // argv[1]: wuint | wreal
 #define C03_NO_MAIN
 #include "c03.cpp"
 #include <shark/Data/WeightedDataset.h>
+#include <cmath>
 
 template<class I>
 struct WHarness: public Harness<I>{
@@ -28,6 +33,16 @@ struct WHarness: public Harness<I>{
 			if(id == BAD || (*it).weight != weightOf(id)){ this->fail("weight-separated-from-element(elements) slot=" + std::to_string(k) + " pos=" + std::to_string(i)); break; }
 			if(i < this->sh[k].size() && (id != this->sh[k][i].first || (*it).data.label != this->sh[k][i].second)){ this->fail("weighted-element-order slot=" + std::to_string(k)); break; }
 		}
+		// the WeightedUnlabeledData flavour built on the fly: same inputs, same weights, same batches
+		if(s.weights().getPartitioning() == s.data().getPartitioning() && !Base::hasEmptyBatch(s.data())){
+			WeightedUnlabeledData<I> wi = s.weightedInputs();
+			if(wi.numberOfElements() != s.numberOfElements() || wi.getPartitioning() != s.getPartitioning()) this->fail("weightedInputs-structure slot=" + std::to_string(k));
+			std::size_t j = 0;
+			for(auto it = wi.elements().begin(); it != wi.elements().end(); ++it, ++j){
+				std::size_t id = Codec<I>::dec((*it).data);
+				if(id == BAD || (*it).weight != weightOf(id) || (j < this->sh[k].size() && id != this->sh[k][j].first)){ this->fail("weightedInputs-element slot=" + std::to_string(k)); break; }
+			}
+		}
 		// via element(i) and via batches
 		for(std::size_t j = 0; j != s.numberOfElements(); ++j){
 			auto e = s.element(j);
@@ -45,14 +60,43 @@ struct WHarness: public Harness<I>{
 	}
 
 	bool wvalid(std::string const& op, std::vector<std::size_t> const& a){
-		static const char* ok[] = {"new", "repart", "splitb", "splitat", "splice", "append", "subset", "shuffle", "copy"};
+		if(op == "reset") return a.empty();
+		static const char* ok[] = {"new", "repart", "splitb", "splitat", "splice", "append", "subset", "shuffle", "copy",
+		                           "swap", "indep", "rrepart", "rsplitb", "rsplitat", "rsplice"};
 		bool found = false; for(const char* o: ok) if(op == o) found = true;
 		if(!found) return false;
 		for(std::size_t k = 0; k != 4; ++k) this->d[k] = wd[k].data();   // the preconditions are those of the data part
-		return this->valid(op, a);
+		bool r = this->valid(op, a);
+		for(std::size_t k = 0; k != 4; ++k) this->d[k] = DS();            // do not keep the batches alive (use-counts!)
+		return r;
 	}
 
-	std::string wexec(std::string const& op, std::vector<std::size_t> const& a){
+	// bootstrap(data, k): the weights count how often each element was drawn
+	void bootProbe(std::vector<std::size_t> const& a){
+		if(a.size() != 3 || a[0] >= 4 || wd[a[0]].numberOfElements() == 0) return;
+		random::globalRng.seed((unsigned)a[2]);
+		DS src = wd[a[0]].data();
+		std::size_t n = src.numberOfElements(), k = a[1] == 0 ? n : a[1];
+		try{
+			WDS b = bootstrap(src, a[1]);
+			double total = 0; bool integral = true;
+			for(std::size_t j = 0; j != b.numberOfElements(); ++j){
+				double w = b.element(j).weight; total += w;
+				if(w < 0 || w != std::floor(w)) integral = false;
+			}
+			if(total != (double)k || !integral) this->fail("bootstrap-weights-do-not-count-the-draws");
+			if(b.numberOfElements() != n || Base::viaBatches(b.data()) != Base::viaBatches(src)) this->fail("bootstrap-changed-elements");
+			if(b.inputShape() != src.inputShape() || b.labelShape() != src.labelShape()) this->fail("bootstrap-shape");
+			if(b.weights().getPartitioning() != src.getPartitioning()) this->fail("bootstrap-weight-partition");
+		}catch(shark::Exception const&){ this->fail("bootstrap-threw"); }
+	}
+
+	std::string wexec(std::string const& op0, std::vector<std::size_t> const& a){
+		bool raw = op0 == "rrepart" || op0 == "rsplitb" || op0 == "rsplitat" || op0 == "rsplice";
+		std::string op = raw ? op0.substr(1) : op0;
+		if(op == "reset"){ for(std::size_t k = 0; k != 4; ++k){ wd[k] = WDS(); this->sh[k].clear(); } return ""; }
+		if(op == "indep"){ wd[a[0]].makeIndependent(); return ""; }
+		if(op == "swap"){ swap(wd[a[0]], wd[a[1]]); std::swap(this->sh[a[0]], this->sh[a[1]]); return ""; }
 		if(op == "new"){
 			std::size_t s = a[0], m = a[1], base = a[2];
 			std::vector<I> in; std::vector<unsigned int> lab; std::vector<double> w; Flat f;
@@ -67,12 +111,13 @@ struct WHarness: public Harness<I>{
 		}
 		if(op == "repart"){
 			std::vector<std::size_t> sizes(a.begin() + 1, a.end());
-			wd[a[0]].makeIndependent(); wd[a[0]].repartition(sizes);
+			if(!raw) wd[a[0]].makeIndependent();
+			wd[a[0]].repartition(sizes);
 			return "";
 		}
-		if(op == "splitb"){ wd[a[0]].makeIndependent(); wd[a[0]].splitBatch(a[1], a[2]); return ""; }
+		if(op == "splitb"){ if(!raw) wd[a[0]].makeIndependent(); wd[a[0]].splitBatch(a[1], a[2]); return ""; }
 		if(op == "splitat"){
-			wd[a[0]].makeIndependent();
+			if(!raw) wd[a[0]].makeIndependent();
 			wd[a[1]] = splitAtElement(wd[a[0]], a[2]);
 			this->sh[a[1]] = Flat(this->sh[a[0]].begin() + a[2], this->sh[a[0]].end());
 			this->sh[a[0]].resize(a[2]);
@@ -82,7 +127,7 @@ struct WHarness: public Harness<I>{
 		if(op == "splice"){
 			std::vector<std::size_t> part = wd[a[0]].getPartitioning();
 			std::size_t k = 0; for(std::size_t i = 0; i != a[2]; ++i) k += part[i];
-			wd[a[0]].makeIndependent();
+			if(!raw) wd[a[0]].makeIndependent();
 			wd[a[1]] = wd[a[0]].splice(a[2]);
 			this->sh[a[1]] = Flat(this->sh[a[0]].begin() + k, this->sh[a[0]].end());
 			this->sh[a[0]].resize(k);
@@ -135,13 +180,23 @@ struct WHarness: public Harness<I>{
 			if(!vh::allNat(t, 1, a)){ std::cout << "bad-op" << std::endl; continue; }
 			this->oracleMsg.clear();
 			std::string status = "ok", extra;
-			if(!wvalid(t[0], a)) status = "undefined";
+			if(t[0] == "boot"){ bootProbe(a); status = "undefined"; }
+			else if(!wvalid(t[0], a)) status = "undefined";
 			else{
 				try{ extra = wexec(t[0], a); }
 				catch(shark::Exception const& e){ status = "exception"; }
 			}
+			// independence is probed on the weighted objects themselves, before the data parts are copied for printing
+			this->indOverride = true;
+			for(std::size_t k = 0; k != 4; ++k){
+				this->d[k] = DS();
+				bool ii = Base::independent(wd[k].data().inputs()), il = Base::independent(wd[k].data().labels()), iw = Base::independent(wd[k].weights());
+				this->indFlags[k] = std::string(ii ? "1" : "0") + (il ? "1" : "0");
+				if(iw != il) this->fail("weights-shared-differently-from-labels slot=" + std::to_string(k));
+			}
 			for(std::size_t k = 0; k != 4; ++k){ this->d[k] = wd[k].data(); weightOracle(k); }
 			std::string st = this->showState();
+			for(std::size_t k = 0; k != 4; ++k) this->d[k] = DS();
 			std::cout << status << (extra.empty() ? "" : " " + extra) << " | " << st << this->oracleMsg << std::endl;
 		}
 		return 0;
